@@ -101,6 +101,7 @@ class OptionBag:
         self.sectiontype = sectiontype
         self.schema = schema
         self.keypairs = {}
+        self.keytexts = {}
         self.sectitems = []
         self._basic_key = schema.registry.get("basic-key")
         for item in options:
@@ -112,6 +113,9 @@ class OptionBag:
                     url, lineno, colno = pos
                     raise ZConfig.DataConversionError(
                         e, optpath[0], (lineno, colno, url))
+                # the matcher converts the key itself: it is handed the
+                # key as written (a key type need not be idempotent)
+                self.keytexts.setdefault(name, optpath[0])
                 self.add_value(name, val, pos)
             else:
                 self.sectitems.append(item)
@@ -200,12 +204,13 @@ class MatcherMixin:
 
     def finish_optionbag(self):
         for key in list(self.optionbag.keys()):
+            keytext = self.optionbag.keytexts.get(key, key)
             for val, pos in self.optionbag.get_key(key):
                 # option positions are (url, lineno, colno); the matcher
                 # expects (lineno, colno, url)
                 url, lineno, colno = pos
                 ZConfig.matcher.BaseMatcher.addValue(
-                    self, key, val, (lineno, colno, url))
+                    self, keytext, val, (lineno, colno, url))
         self.optionbag.finish()
 
 
